@@ -1,6 +1,6 @@
 (* IBAN.generate(country_code, bank_code, account_code, branch_code=""): BBAN.from_components, then
    IBAN.from_bban with its defaults (schwifty/iban.py). *)
-From Schwifty Require Import Lib.Base Model.Clean Model.Data Model.Iban Model.Bban Model.Random.
+From Schwifty Require Import Lib.Base Model.Clean Model.Data Model.Iban Model.Bic Model.Bban Model.Lookup Model.Random.
 
 Definition generate_values (bank account branch : text) : list (text * text) :=
   [(k_bank, bank); (k_branch, branch); (k_account, account)].
@@ -16,3 +16,9 @@ Definition iban_random (e : env) (cfg : iban_cfg) (T : table) (national : text -
     (cc0 : text) (use_registry : bool) (pins : list (text * text)) (ci bi : nat) (draws : list text) : outcome text :=
   do cb <- random_bban e components T find_algo R cc0 use_registry pins ci bi draws;
   iban_from_bban e cfg T national (fst cb) (snd cb) false false.
+
+(* BBAN.bic (IBAN.bic proxies it): BIC.from_bank_code on the BBAN's own bank-identifying field; any library error -> None *)
+Definition bban_bic (e : env) (bcfg : bic_cfg) (countries : list text) (T : table) (R : banks) (cc b : text)
+    : outcome (option text) :=
+  do key <- bban_lookup_key T cc b;
+  match from_bank_code e bcfg countries R cc key with Ok x => Ok (Some x) | Err _ => Ok None | Crash c => Crash c end.
